@@ -68,6 +68,23 @@ def middle_cond(mats):
     SY = S.T @ Y
     Minv = np.block([[-np.diag(np.diag(SY)), np.tril(SY, -1).T], [np.tril(SY, -1), mats.theta * (S.T @ S)]])
     c = float(np.linalg.cond(Minv))
+    c = max(c, schur_cond(S.T, Y.T, mats.theta))
+    return c if np.isfinite(c) else np.inf
+
+
+def schur_cond(S, Y, theta):
+    """Condition number of theta*S^T S + L D^-1 L^T (rows of S, Y = pairs): the matrix whose Cholesky factor the
+    algorithm (Algorithm 778, formt) uses for every product with the middle matrix. The rounding error of those
+    products is eps times this number, which can exceed the condition number of the block matrix by orders of
+    magnitude when the curvatures s_i.y_i span many decades."""
+    S, Y = np.atleast_2d(np.asarray(S, dtype=float)), np.atleast_2d(np.asarray(Y, dtype=float))
+    SY = S @ Y.T
+    d = np.diag(SY)
+    if not np.all(d > 0):
+        return np.inf
+    L = np.tril(SY, -1)
+    J = theta * (S @ S.T) + (L / d) @ L.T
+    c = float(np.linalg.cond(J))
     return c if np.isfinite(c) else np.inf
 
 
